@@ -7,7 +7,7 @@ N=${1:-300}
 BIN=$(tools/build_sim.sh 2>/dev/null) || exit 2
 d=$(basename "$(dirname "$BIN")"); d=${d#bin-}; export IMB_LIBDIR_RESOLVED="$VERIF_DIR/.cache/${d%-*}"
 T=$(mktemp -d /dev/shm/det.XXXXXX); trap 'rm -rf "$T"' EXIT
-profiles="sched:C05 desc:C14 solo:C04 cc:C18 guard:C07 reinit:C15 reattach:C16 reject:C12 xvar:C08 ref_cipher:C01 ref_hash:C02 ref_aead:C03 ref_chain:C06 scrub:C13 keyprep:C11 entry:C09 sgl:C10 indep:C17"
+profiles="sched:C05 desc:C14 solo:C04 cc:C18 guard:C07 reinit:C15 reattach:C16 reject:C12 xvar:C08 ref_cipher:C01 ref_hash:C02 ref_aead:C03 ref_chain:C06 scrub:C13 keyprep:C11 entry:C09 sgl:C10 indep:C17 f12:C09 scrub_entry:C13"
 bad=0
 for pp in $profiles; do
   p=${pp%%:*}; q=${pp##*:}
